@@ -22,7 +22,8 @@ func (c *Conversation) maybeHeartbeat(plain MessagePlaintext, toSend messageWith
 }
 
 func (c *Conversation) potentialHeartbeat(plain MessagePlaintext) (toSend messageWithHeader, err error) {
-	if plain == nil {
+	if plain == nil || c.msgState != encrypted {
+		// (the message just received may have ended the session: nothing can be sent any more)
 		return
 	}
 
